@@ -17,7 +17,7 @@ import (
 type chunk struct {
 	N   int  `json:"n"`             // rows to deliver (clipped to what is left and to the destination)
 	EOF bool `json:"eof,omitempty"` // deliver EOF together with the last rows (n>0 with EOF)
-	Err bool `json:"err,omitempty"` // fail this call with errInjected
+	Err bool `json:"err,omitempty"` // fail this call with errInjected (with N > 0: together with up to N rows; later calls return EOF)
 }
 
 var errInjected = errors.New("verif: injected reader error")
@@ -49,7 +49,7 @@ func (c *chunkedReader) Read(ctx context.Context, out frame.Frame) (int, error) 
 	}
 	ch := c.script[c.call%len(c.script)]
 	c.call++
-	if ch.Err {
+	if ch.Err && ch.N <= 0 {
 		c.done = true
 		c.erred = true
 		return 0, errInjected
@@ -67,6 +67,13 @@ func (c *chunkedReader) Read(ctx context.Context, out frame.Frame) (int, error) 
 		}
 	}
 	c.rows = c.rows[n:]
+	if ch.Err {
+		// a failing read that still delivers rows (as a Head reader over a failing input does); the
+		// stream then reports EOF, not the error again
+		c.done = true
+		c.erred = true
+		return n, errInjected
+	}
 	if len(c.rows) == 0 && (ch.EOF || (n == 0 && ch.N > 0)) {
 		c.done = true
 		return n, sliceio.EOF
